@@ -185,6 +185,8 @@ def check_pairs(ctx, it, A, B, W, Q, lib, watch, herm, n, m):
     Wl = [W.data[i] for i in range(m)]
     Ql = [[Q.data[r, c] for c in range(m)] for r in range(n)]
     sfs, nvs, sgns = watch['sf'], watch['normval'], watch['sgn']
+    for g_ in (sfs, nvs, sgns):
+        g_.count()          # a renamed local: out of reach, not a violation
     ctx.prove('one_scale_factor_per_mode', len(sfs) == m and len(nvs) == m and len(sgns) == m)
     if len(sfs) != m or len(nvs) != m or len(sgns) != m:
         return False
@@ -309,7 +311,7 @@ for _n in (2, 3):
                     ctx.user_perm = None
                 mod = mk_module(it, ES, 2 if B is not None else 1, 2, **kw)
                 watch = it.watches.setdefault(f'{ES}._response', {'sf': [], 'normval': [], 'sgn': []})
-                watch['sf'], watch['normval'], watch['sgn'] = [], [], []
+                watch['sf'], watch['normval'], watch['sgn'] = [V.GhostList(nm_, 'EigenSolve._response') for nm_ in ('sf', 'normval', 'sgn')]
                 ctx.assert_mode = 'assume'
                 ctx.warnings_unobserved = True      # `assert np.isfinite(sf)` is the code's own guard against a vanishing bilinear norm
                 args = [A] + ([B] if B is not None else [])
@@ -413,7 +415,7 @@ for _acls, _bcls in SPARSE:
             ctx.assert_mode = 'assume'
             ctx.warnings_unobserved = True
             for call in (1, 2):
-                watch['sf'], watch['normval'], watch['sgn'] = [], [], []
+                watch['sf'], watch['normval'], watch['sgn'] = [V.GhostList(nm_, 'EigenSolve._response') for nm_ in ('sf', 'normval', 'sgn')]
                 A = sym_matrix(ctx, f'a{call}_', n, acls)
                 B = sym_matrix(ctx, f'b{call}_', n, bcls) if bcls else None
                 if inplace and call == 2:
